@@ -168,10 +168,11 @@ class Cutter(ast.NodeTransformer):
     """mechanical rewrite; `cuts` maps loop ordinal -> LoopSpec, `comps` maps
     comprehension ordinal -> schema callable"""
 
-    def __init__(self, cuts, comps, strlit=False):
+    def __init__(self, cuts, comps, strlit=False, displays=None):
         self.cuts = cuts
         self.comps = comps
         self.strlit = strlit
+        self.displays = displays
         self.loop_no = -1
         self.comp_no = -1
         self.rewritten = []
@@ -310,8 +311,8 @@ class Cutter(ast.NodeTransformer):
         be intercepted otherwise; the helper calls the real method unless an argument is a proxy"""
         self.generic_visit(node)
         f = node.func
-        if self.strlit and isinstance(f, ast.Attribute) and isinstance(f.value, ast.Constant) and type(f.value.value) is str \
-                and not node.keywords:
+        if self.strlit and isinstance(f, ast.Attribute) and not node.keywords and (
+                (isinstance(f.value, ast.Constant) and type(f.value.value) is str) or f.attr in ('format', 'join')):
             self.rewritten.append('%d:%d strlit.%s' % (node.lineno, node.col_offset, f.attr))
             new = ast.Call(ast.Name('__strlit__', ast.Load()), [f.value, ast.Constant(f.attr)] + node.args, [])
             ast.copy_location(new, node)
@@ -319,6 +320,20 @@ class Cutter(ast.NodeTransformer):
                 if not hasattr(c, 'lineno'):
                     ast.copy_location(c, node)
             return new
+        return node
+
+    def visit_List(self, node):
+        self.generic_visit(node)
+        if self.displays and 'list' in self.displays and not node.elts and isinstance(node.ctx, ast.Load):
+            self.rewritten.append('%d:%d empty-list-display' % (node.lineno, node.col_offset))
+            return ast.copy_location(ast.Call(ast.copy_location(ast.Name('__mklist__', ast.Load()), node), [], []), node)
+        return node
+
+    def visit_Dict(self, node):
+        self.generic_visit(node)
+        if self.displays and 'dict' in self.displays and not node.keys:
+            self.rewritten.append('%d:%d empty-dict-display' % (node.lineno, node.col_offset))
+            return ast.copy_location(ast.Call(ast.copy_location(ast.Name('__mkdict__', ast.Load()), node), [], []), node)
         return node
 
     def visit_ListComp(self, node):
@@ -392,7 +407,7 @@ def raw_function(obj):
 
 
 def load(modname, qualname, stubs=None, cuts=None, comps=None, comp_handler=None, builtins_extra=None, raw=True, strlit=False,
-         comps_optional=False):
+         comps_optional=False, displays=None):
     """returns a function object executing the code of modname.qualname from the
     working tree, in a namespace copy with `stubs` injected"""
     m, fn, src, tree = module_source(modname)
@@ -411,14 +426,14 @@ def load(modname, qualname, stubs=None, cuts=None, comps=None, comp_handler=None
     for p in qualname.split('.'):
         obj = inspect.getattr_static(obj, p)
     f = raw_function(obj) if raw else obj
-    if not cuts and not comps and not strlit:
+    if not cuts and not comps and not strlit and not displays:
         if not isinstance(f, types.FunctionType):
             raise EngineEscape('%s is not a plain function' % qualname)
         return types.FunctionType(f.__code__, g, f.__name__, f.__defaults__, f.__closure__)
     import copy
     fnode = copy.deepcopy(node)
     fnode.decorator_list = []
-    cutter = Cutter(cuts or {}, comps or {}, strlit)
+    cutter = Cutter(cuts or {}, comps or {}, strlit, displays)
     fnode.body = [x for s in fnode.body for x in (lambda r: r if isinstance(r, list) else [r])(cutter.visit(s))]
     for k in (cuts or {}):
         if not any(('#%d' % k) in r and ('for' in r or 'while' in r) for r in cutter.rewritten):
@@ -446,7 +461,7 @@ def load(modname, qualname, stubs=None, cuts=None, comps=None, comp_handler=None
         flat = []
         for a in args:
             flat.extend(a if isinstance(a, (list, tuple)) else [a])
-        if not any(isinstance(a, P.Proxy) for a in flat):
+        if type(lit) is not str or not any(isinstance(a, P.Proxy) for a in flat):
             return getattr(lit, meth)(*args)
         if meth == 'join':
             parts = []
@@ -459,6 +474,9 @@ def load(modname, qualname, stubs=None, cuts=None, comps=None, comp_handler=None
             return strings.Formatted(lit, args)
         raise EngineEscape('str literal method %s on proxies' % meth)
 
+    if displays:
+        g['__mklist__'] = displays.get('list')
+        g['__mkdict__'] = displays.get('dict')
     g.update(__strlit__=__strlit__, __cut__=__cut__, __comp__=__comp__, __LoopBreak=LoopBreak, __LoopContinue=LoopContinue,
              __flatten_target=__flatten_target)
     ns = {}
